@@ -62,6 +62,8 @@ func runC04(c *Ctx) {
 	R.Rule("C04.R4", "every URL-valued attribute allowed by UGCPolicy (href, cite, src) sits at one of the URL-checked positions of C03, and attributes without a value pattern are exactly those URL attributes")
 	R.Rule("C04.R6", "value patterns do not reject conforming values: every pattern UGCPolicy registers for an attribute (globally or on an element) accepts the conforming example values of spec/ugc_vocabulary.json for that attribute (exact DFA membership under MatchString semantics)")
 	R.Rule("C04.R5", "defaults: NewPolicy's skip-content set contains script, style, iframe, object, title, noscript, noembed, noframes, frameset, nostyle")
+	R.Rule("C04.R11", "validURL parses what it was given (= C03.R11, cited): no decoding, unescaping or re-casing of the value before url.Parse — a URL of a conforming document that is decoded once more comes out changed (&amp;reg= → ®=)")
+	parsesWhatItWasGiven(c, "C04.R11")
 	R.Rule("C04.R10", "the shipped constructors hand out independent policies: a Policy is never copied by value (a cached prototype returned as a shallow copy shares its tables with every policy handed out before and after)")
 	noPolicyCopies(c, "C04.R10", "customising one policy obtained from a shipped constructor widens every other one, StrictPolicy() included")
 	R.Rule("C04.R9", "the URL positions of the shipped vocabulary are checked positions (= C03.R1/R2/R5, cited): for every (element, attribute) URL position, sanitizeAttrs specialised to the element keeps an attribute with that key only across validURL's true result and with validURL's (or the rewriter's) value — so what UGCPolicy lets through at a.href, q.cite, img.src … carries only the schemes it allows")
